@@ -38,8 +38,40 @@ theorem mem_foldl_setInsert (l s : List Nat) (x : Nat) : x ∈ l.foldl setInsert
   | nil => simp
   | cons a as ih => simp [ih, mem_setInsert]; grind
 
+/-- inserting into a strictly increasing list keeps it strictly increasing (the list stays a set) -/
+theorem setInsert_sorted (s : List Nat) (q : Nat) (hs : s.Pairwise (· < ·)) : (setInsert s q).Pairwise (· < ·) := by
+  induction s with
+  | nil => simp [setInsert]
+  | cons y ys ih =>
+    have hp := List.pairwise_cons.mp hs
+    simp only [setInsert]
+    split
+    · rename_i hq
+      refine List.pairwise_cons.mpr ⟨?_, hs⟩
+      intro a ha
+      rcases List.mem_cons.mp ha with e | e
+      · omega
+      · have := hp.1 a e; omega
+    · split
+      · exact hs
+      · rename_i h1 h2
+        refine List.pairwise_cons.mpr ⟨?_, ih hp.2⟩
+        intro a ha
+        rcases (mem_setInsert ys q a).mp ha with e | e
+        · omega
+        · exact hp.1 a e
+
+theorem foldl_setInsert_sorted (l s : List Nat) (hs : s.Pairwise (· < ·)) : (l.foldl setInsert s).Pairwise (· < ·) := by
+  induction l generalizing s with
+  | nil => simpa
+  | cons a as ih => exact ih _ (setInsert_sorted s a hs)
+
+theorem range_sorted (n : Nat) : (List.range n).Pairwise (· < ·) := by
+  simpa using List.pairwise_lt_range (n := n)
+
 /-- the metadata invariant of a circuit -/
 structure Circuit.Inv (c : Circuit) : Prop where
+  sorted : c.indices.Pairwise (· < ·)
   counts : ∀ nm : String, lookupD c.counts nm = c.gates.countP (fun g => g.name == nm)
   nq : ∀ k : Nat, lookupD c.nqCounts k = c.gates.countP (fun g => g.qubits.length == k)
   varLt : ∀ i ∈ c.varIdx, i < c.gates.length
@@ -47,7 +79,12 @@ structure Circuit.Inv (c : Circuit) : Prop where
   used : ∀ g ∈ c.gates, ∀ q ∈ g.qubits, q ∈ c.indices
 
 theorem Circuit.inv_empty (n : Option Nat) : (Circuit.empty n).Inv := by
-  constructor <;> simp [Circuit.empty, lookupD, Circuit.varGates]
+  constructor
+  · simp only [Circuit.empty]
+    split
+    · exact range_sorted _
+    · simp
+  all_goals simp [Circuit.empty, lookupD, Circuit.varGates]
 
 theorem filterMap_getElem?_append (idx : List Nat) (gs : List Gate) (g : Gate)
     (h : ∀ i ∈ idx, i < gs.length) :
@@ -66,6 +103,7 @@ theorem Circuit.inv_addGate (c c' : Circuit) (g : Gate) (hc : c.Inv) (h : c.addG
   · injection h with h; subst h
     unfold Circuit.addGateCore
     constructor
+    · exact foldl_setInsert_sorted _ _ hc.sorted
     · intro nm
       simp only [lookupD_bump, hc.counts nm, List.countP_append, List.countP_cons, List.countP_nil]
       by_cases hn : g.name = nm <;> simp [hn]
@@ -130,6 +168,76 @@ theorem Circuit.gates_addGates (gs : List Gate) (c c' : Circuit) (h : c.addGates
 theorem Circuit.gates_ofGates (gs : List Gate) (n : Option Nat) (c : Circuit) (h : Circuit.ofGates gs n = .ok c) : c.gates = gs := by
   have := Circuit.gates_addGates gs _ c h
   simpa [Circuit.empty] using this
+
+theorem le_getLast_of_sorted (l : List Nat) (hs : l.Pairwise (· < ·)) (hne : l ≠ []) (q : Nat) (hq : q ∈ l) :
+    q ≤ l.getLast hne := by
+  induction l with
+  | nil => exact absurd rfl hne
+  | cons x xs ih =>
+    cases xs with
+    | nil => simp at hq; simp [hq]
+    | cons y ys =>
+      have hp := List.pairwise_cons.mp hs
+      rw [List.getLast_cons (List.cons_ne_nil y ys)]
+      rcases List.mem_cons.mp hq with e | e
+      · subst e
+        have hy := hp.1 ((y :: ys).getLast (List.cons_ne_nil y ys)) (List.getLast_mem _)
+        omega
+      · exact ih hp.2 (List.cons_ne_nil y ys) e
+
+
+theorem mem_indices_addGates (gs : List Gate) (c c' : Circuit) (h : c.addGates gs = .ok c') (q : Nat) :
+    q ∈ c'.indices ↔ q ∈ c.indices ∨ ∃ g ∈ gs, q ∈ g.qubits := by
+  induction gs generalizing c with
+  | nil => simp [Circuit.addGates] at h; subst h; simp
+  | cons g gs ih =>
+    simp only [Circuit.addGates] at h
+    split at h
+    · cases h
+    · rename_i c1 h1
+      rw [ih c1 h]
+      unfold Circuit.addGate at h1
+      split at h1
+      · cases h1
+      · injection h1 with h1; subst h1
+        simp only [Circuit.addGateCore, mem_foldl_setInsert, List.mem_cons, exists_eq_or_imp]
+        grind
+
+/-- with a fixed register, every accepted gate stays inside it -/
+theorem addGates_fixed_bound (gs : List Gate) (c c' : Circuit) (n : Nat) (hf : c.fixed = some (n + 1))
+    (h : c.addGates gs = .ok c') : c'.fixed = some (n + 1) ∧ ∀ g ∈ gs, ∀ q ∈ g.qubits, q < n + 1 := by
+  induction gs generalizing c with
+  | nil => simp [Circuit.addGates] at h; subst h; simp [hf]
+  | cons g gs ih =>
+    simp only [Circuit.addGates] at h
+    split at h
+    · cases h
+    · rename_i c1 h1
+      unfold Circuit.addGate at h1
+      split at h1
+      · cases h1
+      · rename_i hbad
+        injection h1 with h1; subst h1
+        have hf1 : (c.addGateCore g).fixed = some (n + 1) := by simp [Circuit.addGateCore, hf]
+        obtain ⟨h2, h3⟩ := ih _ hf1 h
+        refine ⟨h2, ?_⟩
+        intro g' hg' q hq
+        rcases List.mem_cons.mp hg' with e | e
+        · subst e
+          simp only [Circuit.addGateBad, hf, Circuit.truthy] at hbad
+          simp at hbad
+          have := hbad q hq
+          omega
+        · exact h3 g' e q hq
+
+theorem width_of_sorted (l : List Nat) (hs : l.Pairwise (· < ·)) (w : Nat) (hw : w ∈ l) (hmax : ∀ q ∈ l, q ≤ w) :
+    l.getLast? = some w := by
+  have hne : l ≠ [] := by intro e; simp [e] at hw
+  rw [List.getLast?_eq_some_getLast hne]
+  have h1 := le_getLast_of_sorted l hs hne w hw
+  have h2 := hmax _ (List.getLast_mem hne)
+  congr 1; omega
+
 
 end Tangelo
 
@@ -235,7 +343,8 @@ theorem remapGates_ok (m : List (Nat × Nat)) (gs gs' : List Gate) (h : remapGat
 
 /-- a successful in-place remap keeps the invariant, for any new index set that contains the image -/
 theorem Circuit.inv_remap (c : Circuit) (m : List (Nat × Nat)) (gs' : List Gate) (idx : List Nat)
-    (hc : c.Inv) (h : remapGates m c.gates = .ok gs') (hidx : ∀ q ∈ m.map (·.2), q ∈ idx) :
+    (hc : c.Inv) (h : remapGates m c.gates = .ok gs') (hidx : ∀ q ∈ m.map (·.2), q ∈ idx)
+    (hsorted : idx.Pairwise (· < ·)) :
     ({ c with gates := gs', indices := idx } : Circuit).Inv := by
   obtain ⟨hmap, hall⟩ := remapGates_ok m _ _ h
   have hf : ∀ g ∈ c.gates, (remapF m g).name = g.name ∧ (remapF m g).isVar = g.isVar ∧
@@ -246,6 +355,7 @@ theorem Circuit.inv_remap (c : Circuit) (m : List (Nat × Nat)) (gs' : List Gate
     simpa [remapF, hg'] using this
   subst hmap
   constructor
+  · exact hsorted
   · intro nm
     simp only
     rw [hc.counts nm, List.countP_map]
